@@ -492,6 +492,7 @@ class UDPDeviceManagementConnection(_DeviceManagementConnection):
     """
 
     __slots__ = (
+        "_ack_request",
         "_device_management",
         "local_ip",
         "local_port",
@@ -514,6 +515,7 @@ class UDPDeviceManagementConnection(_DeviceManagementConnection):
         self.local_port = local_port
         self.route_back = route_back
         self._device_management: DeviceManagement | None = None
+        self._ack_request: DeviceConfiguration | None = None
         super().__init__(
             gateway_ip=gateway_ip,
             gateway_port=gateway_port,
@@ -552,6 +554,11 @@ class UDPDeviceManagementConnection(_DeviceManagementConnection):
         if self._device_management is not None:
             self._device_management.stop()
             self._device_management = None
+        if self._ack_request is not None:
+            # Fail a request waiting for its acknowledgement instead of
+            # timing it out.
+            self._ack_request.abort()
+            self._ack_request = None
 
     async def _send_request(self, cemi: CEMIFrame) -> None:
         """Send a request, repeating it while it stays unacknowledged."""
@@ -561,6 +568,9 @@ class UDPDeviceManagementConnection(_DeviceManagementConnection):
         raw_cemi = cemi.to_knx()
         # A repetition keeps the sequence counter of the frame it repeats.
         for attempt in range(DEVICE_CONFIGURATION_REQUEST_REPETITIONS + 1):
+            if attempt and self._ack_request is None:
+                # `_stop()` ended the wait - the connection was closed meanwhile
+                raise CommunicationError("Device management connection was closed.")
             device_configuration = DeviceConfiguration(
                 transport=self.transport,
                 data_endpoint=self._data_endpoint_addr,
@@ -573,6 +583,7 @@ class UDPDeviceManagementConnection(_DeviceManagementConnection):
             )
             error_code: ErrorCode | None = None
             acknowledged = True
+            self._ack_request = device_configuration
             try:
                 await device_configuration.request()
             except RequestResponseError as err:
